@@ -566,8 +566,9 @@ func prelude() string {
 	for _, b := range []int{8, 16, 32, 64} {
 		mod := new(big.Int).Lsh(big.NewInt(1), uint(b))
 		half := new(big.Int).Lsh(big.NewInt(1), uint(b-1))
-		fmt.Fprintf(&sb, "(define-fun wrap_u%d ((x Int)) Int (mod x %s))\n", b, mod)
-		fmt.Fprintf(&sb, "(define-fun wrap_s%d ((x Int)) Int (- (mod (+ x %s) %s) %s))\n", b, half, mod, half)
+		// identity inside the type's range (the common case, decided without mod), two's complement outside
+		fmt.Fprintf(&sb, "(define-fun wrap_u%d ((x Int)) Int (ite (and (<= 0 x) (< x %s)) x (mod x %s)))\n", b, mod, mod)
+		fmt.Fprintf(&sb, "(define-fun wrap_s%d ((x Int)) Int (ite (and (<= (- %s) x) (< x %s)) x (- (mod (+ x %s) %s) %s)))\n", b, half, half, half, mod, half)
 	}
 	sb.WriteString("(define-fun tdiv ((a Int) (b Int)) Int (ite (>= a 0) (ite (> b 0) (div a b) (- (div a (- b)))) (ite (> b 0) (- (div (- a) b)) (div (- a) (- b)))))\n")
 	sb.WriteString("(define-fun trem ((a Int) (b Int)) Int (- a (* b (tdiv a b))))\n")
